@@ -675,6 +675,45 @@ def _real_run_inner(case, seed):
     return dev, f"T={T} recorded steps={list(map(int, tk))} stride={stride} window={apod} mode={mode} detector={kind}: max relative deviation from the DFT of the FieldDetector history = {dev:.3e}"
 
 
+def _real_net_flux(spec, seed=0):
+    """REAL ClosedSurfacePhasorPoyntingFluxDetector.compute_net_flux on random, mutually independent
+    face phasors vs (1/2 in continuous mode) * sum_faces +-Re(E x conj H)_a * area"""
+    import jax
+    import jax.numpy as jnp
+    import numpy as np
+
+    from fdtdx.core.wavelength import WaveCharacter
+    from fdtdx.objects.detectors.poynting_flux import ClosedSurfacePhasorPoyntingFluxDetector
+
+    rng = np.random.default_rng(seed)
+    sizes = tuple(spec["sizes"])
+    lo = (1, 0, 2)
+    cfg = L.real_cfg(bool(spec.get("nonuniform")), tuple(l + s + 1 for l, s in zip(lo, sizes)), time_steps=4, seed=seed)
+    sl = tuple((l, l + s) for l, s in zip(lo, sizes))
+    axes, mode = spec["axes"], spec["mode"]
+    det = ClosedSurfacePhasorPoyntingFluxDetector(name="cs", wave_characters=(WaveCharacter(wavelength=1e-6), WaveCharacter(wavelength=0.7e-6)), orientation=spec["orientation"], axes=axes, scaling_mode=mode, dtype=jnp.complex128)
+    try:
+        det = det.place_on_grid(sl, cfg, jax.random.PRNGKey(0))
+        st = {k: jnp.asarray(rng.normal(size=v.shape) + 1j * rng.normal(size=v.shape)) for k, v in det.init_state().items()}
+        got = np.asarray(det.compute_net_flux(st))
+    except Exception as e:  # noqa: BLE001
+        return float("inf"), f"the real code raised on a valid input: {type(e).__name__}: {e}"
+    w = L.real_widths(cfg, sl)
+    exp = np.zeros(2)
+    for a in tuple(axes) if axes is not None else tuple(i for i in range(3) if sizes[i] > 1):
+        t = [b for b in range(3) if b != a]
+        area = np.ones([1 if i == a else sizes[i] for i in range(3)])
+        for b in t:
+            area = area * w[b].reshape([-1 if i == b else 1 for i in range(3)])
+        for side, sg in (("max", 1.0), ("min", -1.0)):
+            P = np.asarray(st[f"phasor_axis{a}_{side}"])[0]
+            Sa = np.real(np.cross(P[:, :3], np.conj(P[:, 3:]), axis=1))[:, a]
+            exp = exp + sg * (Sa * area).sum(axis=(1, 2, 3))
+    exp = exp * (0.5 if mode == "continuous" else 1.0) * (-1.0 if spec["orientation"] == "inward" else 1.0)
+    dev = float(np.max(np.abs(got - exp)) / max(1e-300, np.max(np.abs(exp)), np.max(np.abs(got))))
+    return dev, f"compute_net_flux on random independent face phasors, box {sizes}, axes={axes}, {spec['orientation']}, {mode}: real {got}, expected {exp} (relative deviation {dev:.3e})"
+
+
 def _tol(case):
     """the window table is stored in float32 by place_on_grid (even for complex128 detectors), so
     apodized records carry ~1e-7 relative rounding; un-apodized records are exact to float64"""
@@ -856,6 +895,9 @@ def _replay(key, obligation, witness):
             for d in "+-":
                 cases.append(dict(detector="plane", T=10, mode=spec["mode"], apodization=None, dft_subsample=1, keep=keep, direction=d, sizes=tuple(spec["sizes"]), fixed_axis=spec["fixed_axis"], nonuniform=bool(spec["nonuniform"])))
     elif kind == "closed":
+        dev, detail = _real_net_flux(spec)
+        if dev > 1e-9:
+            return True, detail
         for apod in (None, "gaussian", "tukey"):
             cases.append(dict(detector="closed", T=12, mode=spec["mode"], apodization=apod, dft_subsample=1, sizes=tuple(spec["sizes"]), axes=spec["axes"], orientation=spec["orientation"], nonuniform=bool(spec["nonuniform"])))
     else:
